@@ -164,7 +164,7 @@ def run_window(case):
                 if br != exp:
                     return {"ok": False, "key": "get_bands_in_range:differs",
                             "detail": f"E={E.tolist()} thr={thr} range=({emin},{emax}) {br} vs {exp}"}
-    return {"ok": True, "nontrivial": (["cut", case["t"], case["pat"]] if cut else False)}
+    return {"ok": True, "nontrivial": (("cut", case["t"], tuple(case["pat"])) if cut else False)}
 
 
 def make_multiplet_system(base, mult, seed):
@@ -230,7 +230,7 @@ def run_tab(case, seed):
                 if d > 1e-9 * scale:
                     return {"ok": False, "key": f"Tabulator:{name}:varies_inside_block",
                             "detail": f"k={k} block={b} spread={d} E={E.tolist()}"}
-    return {"ok": True, "nontrivial": (["tab", case["base"], mult] if mult > 1 else False)}
+    return {"ok": True, "nontrivial": (("tab", case["base"], mult) if mult > 1 else False)}
 
 
 def run_case(case, seed):
